@@ -705,6 +705,8 @@ func checkQueuesStructure(partition *PartitionConfig) error {
 		} else {
 			// make sure root is a parent
 			partition.Queues[0].Parent = true
+			// the name was compared ignoring case: from here on the queue is found by its canonical name
+			partition.Queues[0].Name = RootQueue
 		}
 	}
 
